@@ -100,4 +100,10 @@ def c19_lr_cyclic_runaway(case):
     return str(case.get("what", "")).startswith("runs-away/LR") and isinstance(a, dict) and a.get("resolved_conflicts") is True
 
 
-PREDICATES = {f.__name__: f for f in (c19_lr_cyclic_runaway, c26_lalry_unreachable, c33_terminal_name_self, c16_newline_not_error, c14_scnr2_restore_last_char, c15_three_atom_end)}
+def c29_thread_publish_race(case):
+    """the observed history is exactly what the as-coded model of LsDiag.tla predicts, and it ends with diagnostics that
+    are not the final text's: a background thread published after a newer edit's result, or before its own `ok`"""
+    return case.get("why") == ["final_diagnostics_not_current"] and case.get("published") == case.get("model")
+
+
+PREDICATES = {f.__name__: f for f in (c29_thread_publish_race, c19_lr_cyclic_runaway, c26_lalry_unreachable, c33_terminal_name_self, c16_newline_not_error, c14_scnr2_restore_last_char, c15_three_atom_end)}
